@@ -14,7 +14,7 @@ func init() {
 	register(&Property{
 		ID:          "C10",
 		Engines:     []string{"cfg", "lockset"},
-		Explanation: "HTTP exchanges end to end: ordering, exactly-once and isolation over histories are not statically decidable and rest on C05 (serialisation), C09 (framing) and C11 (buffer ownership). Decided here is the glue specific to C10: the job handed to the connection's executor for each request is handler-then-flush and nothing else, and on the !ok edge the request is released and no handler runs (O1); flushResponse closes on the Close edge only after the flush, immediately on a flush error, renews the keep-alive deadline otherwise, and releases request and response exactly once on every path (O2); the client appends its handler under the mutex before the request is written, pops index 0 under the mutex, and on close invokes every pending handler and clears the list in the same critical section (O3); the TLS and non-TLS listener dispatch have the same IOMod case set and hand each listener to the add-function of the matching kind (O4).",
+		Explanation: "HTTP exchanges end to end: ordering, exactly-once and isolation over histories are not statically decidable and rest on C05 (serialisation), C09 (framing) and C11 (buffer ownership). Decided here is the glue specific to C10: the job handed to the connection's executor for each request is handler-then-flush and nothing else, and on the !ok edge the request is released and no handler runs (O1); flushResponse closes on the Close edge only after the flush, immediately on a flush error, renews the keep-alive deadline otherwise, and releases request and response exactly once on every path (O2); the client appends its handler under the mutex before the request is written, pops index 0 under the mutex, and on close invokes every pending handler and clears the list in the same critical section (O3); the TLS and non-TLS listener dispatch have the same IOMod case set and hand each listener to the add-function of the matching kind (O4). The TLS drain loops stop only on a zero count (O6).",
 		NotCovered:  "everything quantified over histories / concurrency; net/http interoperability",
 		Run:         runC10,
 	})
@@ -25,6 +25,7 @@ func runC10(c *Ctx) {
 	c.Rule("C10.O2", "E4,E2", "flushResponse: Close only after flush (or at once on flush error), keep-alive renewal on the other edge, releaseRequest and releaseResponse exactly once on every path with a connection", 2)
 	c.Rule("C10.O3", "E1,E4", "ClientConn: handlers/closed/conn guarded by its mutex; Do appends before writing the request; onResponse invokes and pops index 0; close invokes all pending handlers and clears the list", 8)
 	c.Rule("C10.O4", "E7d", "startListeners: TLS and non-TLS switches over IOMod have cases {0,1,2}; blocking <-> AddConn*Blocking, non-blocking <-> AddConn*NonBlocking, mixed <-> A blocking with Decrease + B non-blocking; TLS loop uses the TLS variants", 8)
+	c.Rule("C10.O7", "E4,E5", "the close the library issues itself after a complete 'Connection: close' response does not cut the response off: the Close it calls drains (reaches flush, or tears down only on the queue-empty edge) instead of releasing the write queue unsent", 1)
 	c.Rule("C10.O6", "E4,E6", "the TLS drain loops read the decrypted stream to exhaustion: an edge of a test on AppendAndRead's count that does not come back to AppendAndRead (without a new socket read) is taken only for a count of zero; one socket read can carry several TLS records, each returned by its own AppendAndRead", 2)
 	c10TLSDrain(c, "C10.O6", "nbhttp")
 
@@ -133,6 +134,32 @@ func runC10(c *Ctx) {
 			}
 		}
 		c.Cond(bad == "", "C10.O2", key, c.FnPos(fr), "Close only after flush, on the Close edge or on flush error", bad)
+
+		// O7: the library's own close after a complete response must not cut the response off
+		if flush != nil {
+			isCloseCall := func(in ssa.Instruction) bool {
+				x, ok := ir.AsCall(in)
+				return ok && x.Common.IsInvoke() && x.Common.Method.Name() == "Close"
+			}
+			n := 0
+			for _, in := range instrsOf(fr, isCloseCall) {
+				onClose := fi.HasFact(in, func(ft ir.Fact) bool {
+					k, set, ok := c.P.BoolFieldTest(ft.Cond, ft.Truth)
+					return ok && k == "net/http.Request.Close" && set
+				})
+				if !onClose {
+					continue
+				}
+				n++
+				key := c.siteKey(fr, "close after a Connection: close response", n)
+				drains, why := c.closeDrains()
+				c.Cond(drains, "C10.O7", key, c.Pos(in), why,
+					"after a successful flush the connection is closed at "+c.Pos(in)+" with the connection's plain Close, and "+why+": whatever part of the response the socket has not taken yet is dropped with the write queue, so a 'Connection: close' (or HTTP/1.0) client receives a truncated response")
+			}
+			if n == 0 {
+				c.OK("C10.O7", fnKey(c.P, fr, "close after a Connection: close response"), c.FnPos(fr), "no close on the request-asked-for-close edge")
+			}
+		}
 
 		// release exactly once per path
 		key = fnKey(c.P, fr, "request and response released once")
@@ -538,4 +565,44 @@ func c10TLSDrain(c *Ctx, ob string, pkg string) {
 			c.Cond(bad == "", ob, key, c.Pos(call), fmt.Sprintf("%d count test(s); draining stops only on zero", nTests), bad)
 		}
 	}
+}
+
+// closeDrains reports whether the poller connection's Close lets a queued
+// backlog go out before the teardown: some function on the static path from
+// (*nbio.Conn).Close to the teardown calls flush, or the teardown call sits on
+// the queue-empty edge.
+func (c *Ctx) closeDrains() (bool, string) {
+	cl := c.P.Func("(*nbio.Conn).Close")
+	core := c.Core()
+	if cl == nil || core.Teardown == nil {
+		return false, "the connection's Close / teardown were not resolved"
+	}
+	seen := map[*ssa.Function]bool{}
+	work := []*ssa.Function{cl}
+	for len(work) > 0 {
+		f := work[len(work)-1]
+		work = work[:len(work)-1]
+		if seen[f] || len(seen) > 64 {
+			continue
+		}
+		seen[f] = true
+		fi := c.P.Info(f)
+		for _, cs := range c.P.Calls(f, nil) {
+			callee := ir.StaticCallee(cs.Common)
+			if callee == nil || !c.P.InModule(callee) {
+				continue
+			}
+			if c.P.FuncName(callee) == fnFlush {
+				return true, c.P.FuncName(f) + " flushes before the teardown"
+			}
+			if callee == core.Teardown {
+				if fi.HasFact(cs.In, func(ft ir.Fact) bool { e, ok := c.queueTest(ft); return ok && e }) {
+					continue
+				}
+				return false, c.P.FuncName(f) + " reaches the teardown (" + c.Pos(cs.In) + ") whatever is queued, and the teardown releases the queue entries unsent"
+			}
+			work = append(work, callee)
+		}
+	}
+	return true, "every teardown call on the way sits on the queue-empty edge"
 }
